@@ -27,6 +27,8 @@ type Result struct {
 	ParseErr      string `json:"parse_err,omitempty"` // non-empty: source rejected (diagnostic text)
 	ParseLine     int    `json:"parse_line,omitempty"`
 	ParseCol      int    `json:"parse_col,omitempty"`
+	ParseSrc      string `json:"parse_src,omitempty"` // the file the diagnostic's position refers to (a script, or a Go source file for errors raised by the host)
+	File          string `json:"file,omitempty"`      // the name under which the source was parsed
 	Uncaught      string `json:"uncaught,omitempty"` // non-empty: uncaught control reached the top level (AsString)
 	UncaughtClass string `json:"uncaught_class,omitempty"`
 	Panic         string `json:"panic,omitempty"` // Go panic escaped the interpreter
@@ -87,14 +89,29 @@ func Run(src string, o Opts) (res Result) {
 	old := data.WriteOutput
 	data.WriteOutput = func(s string) { sb.WriteString(s) }
 	defer func() { data.WriteOutput = old }()
+	// Every run gets a directory of its own, <tmp>/verif-run-*/src/: constructs that look at the directory of the
+	// file at parse time (#[Application(scan: __DIR__)] loads and runs every script below it, boot() may
+	// require dirname(__DIR__)/...) must see neither the inputs of concurrent runs nor anything else in the
+	// shared temp directory.
 	file := o.File
+	priv := ""
 	if file == "" {
+		d, err := os.MkdirTemp("", "verif-run-")
+		if err != nil {
+			panic(err)
+		}
+		defer os.RemoveAll(d)
+		priv = d + "/src"
+		if err := os.Mkdir(priv, 0o755); err != nil {
+			panic(err)
+		}
 		if o.Template {
-			file = os.TempDir() + "/verif-virtual-t.php"
+			file = priv + "/input.php"
 		} else {
-			file = os.TempDir() + "/verif-virtual-t.zy"
+			file = priv + "/input.zy"
 		}
 	}
+	res.File = file
 	res.Phase = "init"
 	// a Go panic recovered by a try statement is still a crash of the interpreter, not an error of the script
 	tryPanicMu.Lock()
@@ -130,14 +147,22 @@ func Run(src string, o Opts) (res Result) {
 	var acl data.Control
 	if o.Template {
 		// mirror Parser.ParseFile for .php: write to a temp file so the real path is exercised
-		f, err := os.CreateTemp("", "verif-*.php")
-		if err != nil {
+		if priv == "" {
+			d, err := os.MkdirTemp("", "verif-run-")
+			if err != nil {
+				panic(err)
+			}
+			defer os.RemoveAll(d)
+			priv = d + "/src"
+			if err := os.Mkdir(priv, 0o755); err != nil {
+				panic(err)
+			}
+		}
+		res.File = priv + "/input.php"
+		if err := os.WriteFile(res.File, []byte(src), 0o644); err != nil {
 			panic(err)
 		}
-		f.WriteString(src)
-		f.Close()
-		defer os.Remove(f.Name())
-		pr, a := pp.ParseFile(f.Name())
+		pr, a := pp.ParseFile(res.File)
 		prog, acl = pr, a
 		if a != nil {
 			prog = nil
@@ -154,7 +179,7 @@ func Run(src string, o Opts) (res Result) {
 		if res.ParseErr == "" {
 			res.ParseErr = "(empty diagnostic)"
 		}
-		res.ParseLine, res.ParseCol = fromOf(acl)
+		res.ParseLine, res.ParseCol, res.ParseSrc = fromOf(acl)
 		res.Phase = "rejected"
 		return
 	}
@@ -211,16 +236,16 @@ func throwClass(acl data.Control) string {
 
 type getFrom interface{ GetFrom() data.From }
 
-func fromOf(acl data.Control) (int, int) {
+func fromOf(acl data.Control) (int, int, string) {
 	if tv, ok := acl.(*data.ThrowValue); ok && tv != nil && tv.Error != nil && tv.Error.From != nil {
 		l, c := tv.Error.From.GetStartPosition()
-		return l + 1, c + 1
+		return l + 1, c + 1, tv.Error.From.GetSource()
 	}
 	if g, ok := acl.(getFrom); ok && g.GetFrom() != nil {
 		l, c := g.GetFrom().GetStartPosition()
-		return l + 1, c + 1
+		return l + 1, c + 1, g.GetFrom().GetSource()
 	}
-	return -1, -1
+	return -1, -1, ""
 }
 
 // Session is a long-lived VM on which several scripts can be run and whose variables can be read
@@ -259,7 +284,7 @@ func (s *Session) Exec(src, file string) (res Result) {
 	prog, acl := pp.ParseString(src, file)
 	if acl != nil {
 		res.ParseErr = acl.AsString()
-		res.ParseLine, res.ParseCol = fromOf(acl)
+		res.ParseLine, res.ParseCol, res.ParseSrc = fromOf(acl)
 		return
 	}
 	s.Vars = pp.GetVariables()
